@@ -167,10 +167,36 @@ PROPS["C08"] = {
     "assumptions": ["observation points cover branch conditions and subscripts; unary-* dereferences and the byte offsets inside the READ_/WRITE_WORD macros are "
                     "not instrumented (their pointers/offsets are formed from parameters, loop indices and constants; audited by reading)",
                     "what the compilers emit (cmov vs branch, vector code) is NOT decided: source-level property only",
-                    "SIMD CTR back ends and the 256-bit block functions are not covered by a C08 job (their scalar control flow equals the generic CTR loops)",
+                    "SIMD CTR back ends: counter increment, set_counter and the encrypt loop are covered with the vector block function's body removed (ct.simd_*); of the vector "
+                    "block functions only Mantis (ct.vec128_mantis, thorough) is covered - the Skinny vector block functions have no branches or subscripts on data by construction "
+                    "(straight-line lane arithmetic), which the C08 jobs do not decide",
                     "bounded: CTR/parallel call sizes <= 40/48/24 bytes, key and tweak lengths by representatives"],
 }
-PROPS["C19"] = {"claimed": False, "reason": "CBMC's C++ front end cannot take the Arduino classes; the mechanical per-run extraction of the portable method bodies to C (DESIGN 5/C19) is not built, and a hand-written C look-alike would be a model, not the code (DESIGN 14.2)"}
+PROPS["C19"] = {
+    "claimed": True,
+    "technique": "CBMC function + loop contracts (dfcc) on C translation units extracted mechanically on every run from the Arduino C++ sources (method bodies verbatim), against the library's specification contracts",
+    "text": "for each of the 11 cipher classes: the constructor chain gives the library variant's round count; encryptBlock/decryptBlock in ghost lock-step with the same "
+            "specification rounds as the C library (loop contracts, all rounds, all schedules, all blocks); setTK1/xorTK1/setTK2/setTK3 against the same closed form / ghost "
+            "tweakey programs; leaf setKey: length check and schedule word J == the expression proved for skinny*_set_key_inner of the corresponding variant; setTweak: "
+            "key part of the schedule unchanged for every previous tweak (history independence), null tweak = all-zero; Mantis8 setKey/setTweak/swapModes/encryptBlock "
+            "against the MANTIS-8 steps and the library's field-level schedule; CTRCommon (CTR<T>): setKey delegates once and resets the keystream, setIV, "
+            "encrypt/decrypt for EVERY length (loop contracts: witness data byte W is xored with byte (p0+W) of buffered-block ++ E(c) ++ E(c+1).., big-endian "
+            "counter arithmetic in 128-bit ghost arithmetic, continuity of posn/counter/buffered block across calls), clear() erases.",
+    "assumptions": [COMPOSE,
+                    "extraction (engine/arduino_extract.py, re-run on every check): g++ -E of the .cpp (host macros: the USE_AVR_INLINE_ASM branches are preprocessed away, comments dropped); "
+                    "the data members of the leaf class and its bases become file-scope objects initialised as the constructor chain initialises them (single object, no `this`); "
+                    "virtual calls are resolved statically to the most derived definition; default arguments are written out; calls through CTRCommon::blockCipher become the "
+                    "external functions BlockCipher__*() with role contracts; the one-argument clean(T&) template is expanded to clean(&x, sizeof x) with the body of clean() "
+                    "taken verbatim from Crypto.cpp; method and helper bodies are the preprocessed text, unchanged",
+                    "the AVR inline-assembly path is not verified (out of reach on the host, as the property says)",
+                    "C++ and C agree on the semantics of the extracted bodies (integer promotions, unsigned arithmetic, unions with literal indices; no templates, exceptions or overloads remain in them)",
+                    "little-endian host (the portable branch memcpy()s bytes into 32-bit words exactly as the library's little-endian path does)",
+                    "object-bounds check on pointer ARITHMETIC is off for these jobs (dereferences stay checked): the flattening gives every member its own object, "
+                    "and Skinny128/64::decryptBlock leave their loop with the schedule cursor one round before sched[], inside the real object",
+                    "CTR<T>: T is abstracted by role contracts on the BlockCipher interface (encryptBlock: result of the witness call named by a ghost); that T's methods meet them is "
+                    "the per-class part; the C library reference for call sequences is its generic back end (its SIMD back ends: open finding D5 under C06)",
+                    "Mantis8::setKey: the 8-iteration rotate loop and the 8-byte clean() are unwound (program constants, unwinding assertions on)"],
+}
 PROPS["C20"] = {
     "claimed": True,
     "technique": "CBMC contracts on the tools' real main()/parse_options against a ghost file model (assumed stdio/getopt contracts) and library role contracts",
